@@ -20,7 +20,7 @@ def find_omega_general(g_w, twoth, w_x, w_y):
     Furthermore find eta (in radians)
     Soren Schmidt, implemented by Jette Oddershede
     """
-    g_w_n = np.sin(twoth/2) * g_w / np.linalg.norm(g_w, axis=0)
+    g_w_n = np.sin(twoth/2) * np.asarray(g_w, float) / np.linalg.norm(g_w, axis=0)
     assert abs(np.dot(g_w_n, g_w_n)-np.sin(twoth/2)**2) < 1e-9, \
         'g-vector must have length sin(theta)'
     w_mat_x = np.array([[1, 0        , 0         ],
@@ -66,7 +66,7 @@ def find_omega_quart(g_w, twoth, w_x, w_y):
     Furthermore find eta (in radians)
     Soren Schmidt, implemented by Jette Oddershede
     """
-    g_w_n = np.sin(twoth/2) * g_w / np.linalg.norm(g_w, axis=0)
+    g_w_n = np.sin(twoth/2) * np.asarray(g_w, float) / np.linalg.norm(g_w, axis=0)
     assert abs(np.dot(g_w_n, g_w_n)-np.sin(twoth/2)**2) < 1e-9, \
         'g-vector must have length sin(theta)'
     w_mat_x = np.array([[1, 0        , 0         ],
@@ -167,7 +167,7 @@ def find_omega(g_w, twoth):
     Solves an equation of type a*cos(w)+b*sin(w) = c by the fixpoint method.
     
     """
-    g_w_n = np.sin(twoth/2) * g_w / np.linalg.norm(g_w, axis=0)
+    g_w_n = np.sin(twoth/2) * np.asarray(g_w, float) / np.linalg.norm(g_w, axis=0)
     g_g = np.sqrt(np.dot(g_w_n, g_w_n))
     costth = np.cos(twoth)
     
